@@ -28,7 +28,7 @@ ASSUMPTIONS = [
     'EAGAIN == EWOULDBLOCK on this platform',
 ]
 REQUIRED = ['endpoint_server', 'endpoint_client', 'endpoint_file', 'partial_send_requeued', 'accept_zero', 'eagain_injected', 'eintr_injected',
-            'enobufs_injected', 'fatal_injected', 'close_while_buffered', 'close_after_drain', 'two_connections_interleaved', 'two_clients_on_one_channel', 'empty_payload',
+            'enobufs_injected', 'fatal_injected', 'close_while_buffered', 'close_after_drain', 'two_connections_interleaved', 'two_clients_on_one_channel', 'file_open_for_reading_and_writing', 'thousands_of_payloads_queued_at_once', 'more_payloads_queued_than_the_configured_backlog', 'empty_payload',
             'write_after_close_request', 'server_wide_close', 'text_payload_multibyte', 'close_requested_by_peer_eof', 'client_reconnected_after_end', 'client_reconnected_after_unsent_backlog']
 REQUIRED_OBLIGATIONS = ['PREFIX', 'ALL_DELIVERED', 'CLOSE_WAITS_FOR_BUFFER', 'NO_SEND_AFTER_CLOSE', 'FATAL_SIGNALLED', 'CLOSE_HAPPENS']
 WORKER_TIMEOUT = {'quick': 300, 'thorough': 1800}
@@ -153,7 +153,7 @@ class Listen(socket.socket):
         return ('127.0.0.1', 9999)
 
 
-def make_world(endpoint, scripts):
+def make_world(endpoint, scripts, backlog=None, fmode='w'):
     """Returns dict(root, drive functions...)."""
     from circuits import BaseComponent, handler
     from circuits.core.pollers import BasePoller, _read as poll_read, _write as poll_write
@@ -189,7 +189,7 @@ def make_world(endpoint, scripts):
     if endpoint == 'server':
         from circuits.net.sockets import TCPServer
         listen = Listen()
-        srv = TCPServer(listen, channel='srv').register(root)
+        srv = (TCPServer(listen, channel='srv') if backlog is None else TCPServer(listen, backlog=backlog, channel='srv')).register(root)
         settle()
         socks = []
         for sc in scripts:
@@ -246,7 +246,7 @@ def make_world(endpoint, scripts):
         if not hasattr(fmod, 'fd_write'):
             raise LookupError('circuits.io.file.fd_write is gone')
         fmod.fd_write = fd_write
-        f = File(tmp.name, 'w', encoding=FILE_ENCODING, channel='fil').register(root)
+        f = File(tmp.name, fmode, encoding=FILE_ENCODING, channel='fil').register(root)
         settle()
         W.update(write=lambda i, d: (root.fire(iev.write(d), 'fil'), settle()),
                  close=lambda i: (root.fire(iev.close(), 'fil'), settle()), socks=[None], comp=f, chan='fil', tmp=tmp.name)
@@ -259,6 +259,14 @@ def make_world(endpoint, scripts):
         fds = list(poller._write)
         for fd in fds:
             root.fire(poll_write(fd), poller.getTarget(fd))
+        if endpoint == 'file':
+            # a regular file is always readable as well: a file opened for reading AND writing also gets a _read whenever the poller looks
+            # (there is nothing to read: it is at its end).  It is delivered after the writes have been handled, to descriptors that are
+            # still registered then (what a File does with a _read for a descriptor it has closed meanwhile is not this property's subject)
+            settle()
+            for fd in list(poller._read):
+                if fd is not poller._ctrl_recv and not isinstance(fd, int):
+                    root.fire(poll_read(fd), poller.getTarget(fd))
         settle()
         for sc in scripts:
             # a fatal outcome must be signalled by the endpoint itself, before the harness does anything else
@@ -277,12 +285,22 @@ def run_case(case):
     payloads = [list(PAYLOAD_SETS[case['payloads']]) for _ in range(nconn)]
     if case.get('big'):
         payloads[0] = [b'B' * (1 << 20), b'tail']
+    if case.get('flood'):
+        # very many small payloads queued for one connection before anything drains (more than any listen backlog, bufsize or other
+        # number the endpoint was configured with)
+        payloads[0] = [b'%05d;' % i for i in range(case['flood'])]
     if nconn == 2 and not tee:
         payloads[1] = [bytes(reversed(p)) + b'#' for p in payloads[1]]
-    W = make_world(endpoint, scripts)
+    W = make_world(endpoint, scripts, backlog=case.get('backlog'), fmode=case.get('fmode', 'w'))
+    if endpoint == 'file' and '+' in case.get('fmode', 'w'):
+        marks_fmode = 'file_open_for_reading_and_writing'
+    else:
+        marks_fmode = None
     problems = []
     counts = dict.fromkeys(REQUIRED_OBLIGATIONS, 0)
     marks = {'endpoint_' + endpoint}
+    if marks_fmode:
+        marks.add(marks_fmode)
     written = [bytearray() for _ in range(nconn)]
     close_req = [False] * nconn
     close_pos = case['close_at']      # index into the step list: close requested before that write (None = at the end)
@@ -373,6 +391,8 @@ def run_case(case):
                     break
                 if n == 0:
                     break
+        if case.get('flood'):
+            marks.add('thousands_of_payloads_queued_at_once' if case['flood'] > 5000 else 'more_payloads_queued_than_the_configured_backlog')
         if tee:
             marks.add('two_clients_on_one_channel')
         elif nconn == 2:
@@ -528,6 +548,19 @@ def corpus():
             for close_at in (None, 1, 2):
                 cs.append({'endpoint': endpoint, 'payloads': 'm', 'script': script, 'close_at': close_at, 'close_by': 'eof', 'pump_between': False})
     cs.append({'endpoint': 'server', 'two': True, 'payloads': 's', 'script': ['P', 'EAGAIN'], 'script2': ['Z', 'P'], 'close_at': 3, 'close_by': 'eof'})
+    # File opened for reading and writing / appending
+    for fm in ('w+', 'a+', 'r+', 'a'):
+        for script in ([], ['P', 'EAGAIN', 'P'], ['Z', 'P', 'EINTR']):
+            for close_at in (None, 1, 2):
+                for pb in (True, False):
+                    cs.append({'endpoint': 'file', 'fmode': fm, 'payloads': 'm', 'script': script, 'close_at': close_at, 'pump_between': pb})
+    # more payloads queued at once than the endpoint's configured numbers (listen backlog 5000 by default, or a small one given)
+    for endpoint in ('server', 'client', 'file'):
+        cs.append({'endpoint': endpoint, 'payloads': 's', 'flood': 5300, 'script': ['EAGAIN', 'P', 'EINTR'], 'close_at': None, 'pump_between': False})
+    for bl in (1, 8):
+        for close_at in (None, 30):
+            cs.append({'endpoint': 'server', 'payloads': 's', 'flood': 60, 'backlog': bl, 'script': ['EAGAIN', 'P', 'Z'], 'close_at': close_at, 'pump_between': False})
+            cs.append({'endpoint': 'server', 'two': True, 'payloads': 's', 'flood': 60, 'backlog': bl, 'script': ['P', 'EAGAIN'], 'script2': ['Z', 'P'], 'close_at': close_at})
     # two clients on one channel: one peer slow, the other one taking everything at once (and the other way round, and both slow)
     for s1, s2 in ((['P', 'EAGAIN', 'P', 'Z', 'P'], []), ([], ['P', 'P', 'EAGAIN', 'P']), (['P', 'EAGAIN', 'P'], ['Z', 'P', 'P']), (['P', 'EPIPE'], ['P', 'P'])):
         for close_at in (None, 1, 2):
@@ -552,6 +585,8 @@ def gen_case(rng):
     pset = rng.choice('semu' if endpoint == 'file' else 'sem')
     case = {'endpoint': endpoint, 'payloads': pset, 'script': script,
             'close_at': rng.choice([None, 0, 1, 2, len(PAYLOAD_SETS[pset]) - 1]), 'pump_between': rng.random() < 0.7}
+    if endpoint == 'file' and rng.random() < 0.5:
+        case['fmode'] = rng.choice(['w+', 'a+', 'r+', 'a'])
     if case['endpoint'] == 'server' and rng.random() < 0.3:
         case['close_all'] = True
     elif case['endpoint'] != 'file' and rng.random() < 0.35:
